@@ -262,6 +262,43 @@ def r4_pdu_extent(ck, cx, rule='R4'):
     ck.floor(rule, n, 40, 'decode() methods of registered messages')
 
 
+def r8_failed_frame_is_dropped_before_any_delivery(ck, cx, rule='R8'):
+    """A frame that failed its check is damaged; its bytes must not reach a callback through another door.  The iteration of
+    processIncomingPacket in which checkFrame() fails ends with the buffer emptied (resetFrame), or with the buffer exactly as it
+    was (the same bytes are checked again when more have arrived).  Consuming only what the damaged header claims and going on
+    leaves the rest of the damaged frame at the head of the buffer, where the next iteration -- or the raw-frame fallback --
+    decodes it as if it were a frame (iterations are enumerated one at a time, so this is decided per iteration)."""
+    ck.rule(rule, 'bytes of a frame that failed checkFrame() are never delivered: the iteration in which the check fails empties the buffer or leaves it untouched, it never consumes part of the damaged frame and carries on')
+    n = 0
+    for kind in KINDS:
+        cls, f, fps = framer_paths(cx, kind)
+        for fp in fps:
+            fails = [i for i, t in fp.truths.get('checkFrame', []) if t is False]
+            if not fails or (fp.exit and fp.exit[0] == 'exc'):
+                continue
+            n += 1
+            i0 = fails[-1]
+            marks = [i for i, k_, n_ in fp.loops if i < i0]
+            lo = marks[-1] if marks else 0
+            if fp.absences:
+                continue            # the check "failed" because the frame is not complete yet: nothing is damaged (C06 decides what may happen then)
+            n += 0
+            # skipping noise in front of a start delimiter is not consuming part of the frame
+            part = [i for i, k_ in fp.shrinks if k_ != 'clear' and i >= lo and '.find(' not in U(getattr(fp.path.ev[i], '_sub', None) or fp.path.ev[i].node)]
+            clears = [i for i, k_ in fp.shrinks if k_ == 'clear' and i > i0]
+            later_ok = [i for i, t in fp.truths.get('checkFrame', []) if t is True and i > i0]
+            ck.ob(rule, f.qn, 'a failed frame check is followed by a buffer clear, or nothing of the frame was consumed', bool(clears or later_ok) or not part,
+                  detail='partial-consume-after-failed-check', loc=cx.floc(f, fp.path.ev[i0].node),
+                  message='%s framer: in the iteration in which checkFrame() fails, part of the buffer is consumed (what the damaged header claims) and the rest is kept: '
+                          'the remainder of the damaged frame stays at the head of the buffer and is decoded as if it were a frame (next iteration / raw-frame fallback), '
+                          'so bytes that failed the integrity check reach the callback' % kind)
+            for d in fp.deliveries:
+                if d > i0 and not [i for i in clears if i < d] and not [i for i in later_ok if i < d]:
+                    ck.ob(rule, f.qn, 'no delivery after a failed check without a clear', False, detail='delivery-after-failed-check-without-clear', loc=cx.floc(f, fp.path.ev[i0].node),
+                          message='%s framer delivers a message after checkFrame() failed on the same path without emptying the buffer in between' % kind)
+    ck.floor(rule, n, 4, 'paths with a failed frame check')
+
+
 def r7_decode_failure_is_not_a_message(ck, cx, rule='R7'):
     """R4 rests on this: when a codec rejects the buffer it was given (struct.error / IndexError from an exact-size unpack), nothing is
     delivered.  The decoders call X.decode(data[1:]) on the freshly looked-up message; on every path where that call raises, the
@@ -302,6 +339,7 @@ def r7_decode_failure_is_not_a_message(ck, cx, rule='R7'):
 def run(ck, tier):
     cx = Ctx()
     ck.guard(r1_r2, ck, cx)
+    ck.guard(r8_failed_frame_is_dropped_before_any_delivery, ck, cx)
     ck.guard(r3_shape, ck, cx)
     ck.guard(r2_delivered_range_is_declared_range, ck, cx)
     ck.guard(r4_pdu_extent, ck, cx)
